@@ -1110,6 +1110,11 @@ impl TwoFloat {
             Self::from(0.0)
         } else if self <= -1.0 {
             Self::NAN
+        } else if self.hi < -0.5 {
+            // Close to -1 the low word changes 1 + x by a large relative amount, so
+            // log1p(hi) is a poor starting point for the iteration below (and is -inf
+            // for hi == -1). The sum 1 + x is accurate there, so use ln directly.
+            (1.0 + self).ln()
         } else {
             let mut x = Self::from(libm::log1p(self.hi));
             let mut e = x.exp_m1();
